@@ -39,10 +39,22 @@ type Corruption struct {
 	Alt   int    `json:"alt,omitempty"`
 }
 
+// Graft puts an exotic value (integers beyond 2^53 / int64, a CBOR uint64 above MaxInt64, non-UTF-8 strings,
+// big or deep values ...) into the metadata or arguments of the honest token, which is then re-signed by its
+// issuer BEFORE it is corrupted: the tokens the generator can build through the constructors never carry such
+// values, but an attacker's token can, and every code path of verification that depends on the payload's
+// content (re-encoding, length computation, integer checks) is only reached with them.
+type Graft struct {
+	Field string `json:"field"` // "meta" | "args"
+	Key   string `json:"key"`
+	V     val.V  `json:"v"`
+}
+
 type Case struct {
-	Tok  tok.Tok    `json:"tok"`
-	JSON bool       `json:"json,omitempty"`
-	C    Corruption `json:"corruption"`
+	Tok   tok.Tok    `json:"tok"`
+	JSON  bool       `json:"json,omitempty"`
+	Graft *Graft     `json:"graft,omitempty"`
+	C     Corruption `json:"corruption"`
 }
 
 var byteKinds = []string{"bitflip", "delete", "insert-00", "insert-ff", "insert-copy", "subst-00", "subst-ff", "subst-not"}
@@ -377,6 +389,53 @@ func run(c *h.Ctx, cs Case) {
 	if err != nil {
 		return
 	}
+	if cs.Graft != nil && !cs.JSON {
+		e0, err := env.Parse(honest)
+		if err != nil {
+			c.Inconclusive("harness cannot parse an honest token: %v", err)
+		}
+		payload := val.FromNode(e0.Payload)
+		np := val.V{K: "map"}
+		done := false
+		for _, kv := range payload.M {
+			if kv.K == cs.Graft.Field && kv.V.K == "map" {
+				m := val.V{K: "map", M: append(append([]val.KV{}, kv.V.M...), val.KV{K: cs.Graft.Key, V: cs.Graft.V})}
+				if !m.HasDupKeys() {
+					kv.V = m
+					done = true
+				}
+			}
+			np.M = append(np.M, kv)
+		}
+		if !done && cs.Graft.Field == "meta" {
+			np.M = append(np.M, val.KV{K: "meta", V: val.Map(val.E(cs.Graft.Key, cs.Graft.V))})
+			done = true
+		}
+		if !done {
+			c.P.Class("graft-not-applicable")
+			return
+		}
+		var b []byte
+		var serr error
+		if pn, _, _ := h.Try(func() { b, serr = env.SignPayload(priv, e0.Tag, np.Node()) }); pn || serr != nil {
+			c.P.Class("graft-not-encodable")
+			return
+		}
+		honest = b
+		e1, err := env.Parse(honest)
+		if err != nil {
+			c.P.Class("graft-not-encodable")
+			return
+		}
+		if v0, err = e1.View(); err != nil {
+			c.P.Class("graft-view-error")
+			return
+		}
+		c.P.Class("graft:" + cs.Graft.Field + ":" + cs.Graft.V.Kind())
+		if _, _, derr := token.FromSealed(honest); derr == nil {
+			c.P.Class("graft-accepted-by-decoder")
+		}
+	}
 	input, oldSig, ok := corrupt(cs, honest)
 	if !ok {
 		c.P.Class("corruption-not-applicable")
@@ -497,6 +556,27 @@ func draw(t *rapid.T) Case {
 		cs.C = Corruption{Kind: rapid.SampledFrom(fieldKinds).Draw(t, "fk"), Field: rapid.SampledFrom(fields).Draw(t, "field"), Alt: rapid.IntRange(0, 9).Draw(t, "alt")}
 	default:
 		cs.C = Corruption{Kind: rapid.SampledFrom(sigKinds).Draw(t, "sk"), Alt: rapid.IntRange(0, 300).Draw(t, "alt")}
+	}
+	if !cs.JSON && rapid.IntRange(0, 3).Draw(t, "graft") == 0 {
+		g := &Graft{Field: "meta", Key: rapid.SampledFrom([]string{"zzg", "g", "a"}).Draw(t, "gkey")}
+		if cs.Tok.Inv != nil && rapid.IntRange(0, 3).Draw(t, "gargs") == 0 {
+			g.Field = "args"
+		}
+		switch rapid.IntRange(0, 7).Draw(t, "gkind") {
+		case 0, 1:
+			g.V = val.Uint(rapid.Uint64Range(1<<63, ^uint64(0)).Draw(t, "gu"))
+		case 2:
+			g.V = val.Int(rapid.SampledFrom(val.IntHostile).Draw(t, "gi"))
+		case 3:
+			g.V = val.List(val.Map(val.E("n", val.Uint(rapid.Uint64Range(1<<63, ^uint64(0)).Draw(t, "gnu")))), val.Int(1))
+		case 4:
+			g.V = val.Bytes(make([]byte, rapid.SampledFrom([]int{0, 23, 24, 255, 256, 65535, 65536}).Draw(t, "gb")))
+		case 5:
+			g.V = val.V{K: "strb", X: rapid.SliceOfN(rapid.Byte(), 1, 6).Draw(t, "gsb")}
+		default:
+			g.V = val.Gen(t, val.Cfg{Depth: 3, MaxLen: 3, Hostile: true, Keys: []string{"a", "b", ""}})
+		}
+		cs.Graft = g
 	}
 	return cs
 }
